@@ -42,6 +42,7 @@ type verifResult struct {
 	RangeExecs int    `json:"range_execs"`
 	DumpBefore string `json:"dump_before,omitempty"`
 	DumpAfter  string `json:"dump_after,omitempty"`
+	DumpDiff   []string `json:"dump_diff,omitempty"`
 	WallNs     int64  `json:"wall_ns"`
 }
 
@@ -133,11 +134,22 @@ func verifRunCase(c *verifCase, capOut, capErr *os.File) *verifResult {
 
 	verifrt.BeginCase(c.Order, c.Budget)
 	os.Args = append([]string{"ti"}, c.Argv...)
-	var stdout, stderr string
+	var stdout, stderr, beforeText string
 	verifrt.OnFinish = func() {
 		stdout = verifReadCap(capOut)
 		stderr = verifReadCap(capErr)
-		if c.Dump != "" {
+		if c.Dump == "diff" {
+			after := base.VerifDump(true)
+			res.DumpAfter = base.VerifHash(after)
+			if after != beforeText {
+				bl, al := strings.Split(beforeText, "\n"), strings.Split(after, "\n")
+				for k := 0; k < len(bl) && k < len(al) && len(res.DumpDiff) < 24; k++ {
+					if bl[k] != al[k] {
+						res.DumpDiff = append(res.DumpDiff, bl[k]+"  ##AFTER##  "+al[k])
+					}
+				}
+			}
+		} else if c.Dump != "" {
 			res.DumpAfter = base.VerifDump(c.Dump == "text")
 		}
 	}
@@ -152,7 +164,11 @@ func verifRunCase(c *verifCase, capOut, capErr *os.File) *verifResult {
 		verifrt.ResetAll()
 	}()
 	if res.CrashSite == "" {
-		if c.Dump != "" {
+		if c.Dump == "diff" {
+			base.VerifSnapshotKeys()
+			beforeText = base.VerifDump(true)
+			res.DumpBefore = base.VerifHash(beforeText)
+		} else if c.Dump != "" {
 			base.VerifSnapshotKeys()
 			res.DumpBefore = base.VerifDump(c.Dump == "text")
 		}
